@@ -262,9 +262,17 @@ func (fv *FV) callStatic(st *State, ins ssa.CallInstruction, v ssa.Value, callee
 	snap := st.clone()
 	sig := callee.Signature
 	rec := &lastCall{snap: snap, valid: "true"}
+	// the argument list of a method call starts with the receiver
+	var ptypes []types.Type
+	if sig.Recv() != nil {
+		ptypes = append(ptypes, sig.Recv().Type())
+	}
+	for i := 0; i < sig.Params().Len(); i++ {
+		ptypes = append(ptypes, sig.Params().At(i).Type())
+	}
 	for i, a := range args {
-		if i < sig.Params().Len() {
-			rec.args = append(rec.args, SVal{a, sig.Params().At(i).Type()})
+		if i < len(ptypes) {
+			rec.args = append(rec.args, SVal{a, ptypes[i]})
 		}
 	}
 	fv.callStaticInner(st, ins, v, callee, args, mc)
